@@ -180,7 +180,7 @@ def back_rules(F, rep):
         inner = min([body for h, body in loops if bi in body], key=len, default=None)
         doms = [l for l in emit_lit if g.dominates(l, bi) and (inner is None or l in inner)]
         rep.ob(R, "every increment of the budget follows a literal emitted in the same iteration", bool(doms),
-               site="%s:%s" % (enc.file, enc.blocks[bi]["stmts"][0]["sp"].get("line", "?") if enc.blocks[bi]["stmts"] else "?"), key=R + " | increment paired with literal")
+               site="%s:%s" % (enc.file, (enc.blocks[bi]["stmts"][0].get("sp") or {}).get("line", "?") if enc.blocks[bi]["stmts"] else "?"), key=R + " | increment paired with literal")
     rep.floor(R, len(incs), 2, "budget increments")
     # bytes are removed from the output only by the backward-extension loop, bounded by the matcher's answer
     pops = [(bi, t) for bi, t in enc.calls() if re.search(r"Vec::<T, A>::(pop|truncate|drain|clear|remove)$", t["callee"])
